@@ -240,6 +240,8 @@ def k17_find_path(ctx) -> None:
     else:
         ctx.violation("K17", f, "find_path must start from (comb_class,) and extend paths only along self.vertices[end]", construct=f"{DB}.find_path search")
     brk = [n for n in walk_local(f) if isinstance(n, ast.Break)]
+    # leaving the loop with the path in hand is the same stop
+    brk += [r for r in C.returns_of(f) if r.value is not None and C.enclosing_loops(f, r) and isinstance(r.value, ast.Name)]
     if brk and all(any(p and t.endswith(f"== {b}") for t, p in C.guard_texts(f, x)) for x in brk):
         ctx.ok("K17", "the search stops when the path ends at the second label")
     else:
